@@ -298,7 +298,12 @@ V = [
     ("C14", B, "no post check", PRE,
      "    # Perform a sanity check\n    check_order(sorted_identifiers)\n", "", "C14-R3"),
     ("C14", B, "insert without remove", PRE,
-     "                sorted_identifiers.remove(step)\n", "", "C14-R2"),
+     "                    sorted_identifiers.remove(step)\n", "", "C14-R2"),
+    ("C14", B, "repetition never stops early", PRE,
+     "        if not moved:\n            break\n", "", "C14-R6"),
+    ("C14", B, "flag not reset per pass", PRE,
+     "        moved = False\n        for pid in identifiers:",
+     "        for pid in identifiers:", "C14-R6"),
     ("C14", B, "unknown optional", PRE,
      'steps_optional=["correct_force_slope"]\n                    )\ndef preproc_correct_force_offset',
      'steps_optional=["correct_slope"]\n                    )\ndef preproc_correct_force_offset', "C14-R1"),
